@@ -651,6 +651,51 @@ def check_output_history(ctx):
                                   {'assertion': name, 'scenario': 'output-history', 'operand': which, 'printed_by_it': printed, 'text': text}, o)
 
 
+SUBMISSIONS_NAMING_TYPES = [
+    ("Id = int\nPair = tuple[int, str]\nclass Dog:\n    def __init__(self, name, age):\n        self.name = name\n        self.age = age\n"
+     "class Cat:\n    pass\ndef make():\n    return Dog('rex', 3)\ndef other():\n    return Cat()\n"),
+    ("Id = str\nPair = tuple[str, int]\nclass Cat:\n    pass\nclass Dog:\n    pass\ndef make():\n    return Dog()\ndef other():\n    return Cat()\n"),
+    ("Id = float\nPair = list[int]\nDog = int\nCat = str\ndef make():\n    return 5\ndef other():\n    return 'tom'\n"),
+]
+
+
+def check_type_names_across_submissions(ctx):
+    """a type written as text names whatever the CURRENT student's program binds to that name: the same assertions over several
+    submissions in one process (A, B, C, A, ...) are judged against each submission's own namespace"""
+    from pedal.core.commands import clear_report, contextualize_report
+    from pedal.sandbox import commands as sbx
+    import pedal.assertions.runtime as rt
+    from pedal.core.report import MAIN_REPORT
+    order = [0, 1, 2, 0, 2, 1, 1, 0]
+    for turn, si in enumerate(order):
+        clear_report()
+        contextualize_report(SUBMISSIONS_NAMING_TYPES[si])
+        sbx.run()
+        ns = sbx.get_sandbox().data
+        made, other = sbx.call('make'), sbx.call('other')
+        for vname, operand, raw in (('7', 7, 7), ("'x7'", 'x7', 'x7'), ('2.5', 2.5, 2.5), ("(1, 'a')", (1, 'a'), (1, 'a')), ("('a', 1)", ('a', 1), ('a', 1)),
+                                    ('[1, 2]', [1, 2], [1, 2]), ('make()', made, unwrap(made)), ('other()', other, unwrap(other))):
+            for tname in ('Id', 'Pair', 'Dog', 'Cat'):
+                try:
+                    holds = conforms(raw, ns[tname])
+                except Open:
+                    continue
+                for name, want in (('assert_type', holds), ('assert_not_type', not holds)):
+                    try:
+                        fb = getattr(rt, name)(operand, tname)
+                        o = 'fails' if bool(fb) else 'silent'
+                    except Exception as e:
+                        o = 'raised:%s' % type(e).__name__
+                    ctx.count('cells_checked')
+                    ctx.count('type_name_cells_across_submissions')
+                    ctx.case('%s|%s|%s|submission-%d|turn-%d' % (name, vname, tname, si, turn))
+                    exp = 'silent' if want else 'fails'
+                    if o != exp:
+                        ctx.violation('C07|%s|expected-%s|got-%s|type-named-in-the-student-namespace|%s' % (name, exp, o.split(':')[0], 'first-submission' if turn == 0 else 'after-other-submissions'),
+                                      {'assertion': name, 'scenario': 'type-names-across-submissions', 'value': vname, 'type_text': tname,
+                                       'submission': SUBMISSIONS_NAMING_TYPES[si], 'turn': turn}, o)
+
+
 UNIT_CASES = [((1, 2), 3, True), ((1, 2), 4, False), ((0, 0), 0, True), ((-1, 1), 0, True), ((1, 'a'), 0, False), (("'a'", "'b'"), 'ab', None),
               (('a', 'b'), 'ab', True), ((1.0004, 0), 1.0, True), ((1, 2.5), 3.5, True), ((2, 2), 5, False), (([1], [2]), [1, 2], True),
               ((1,), 0, False), ((None, 1), 1, False)]
@@ -759,6 +804,8 @@ def run(ctx):
     check_unit_tests(ctx, h, rng, ctx.pick(25, 400))
     if ctx.shard % 4 == 1:
         check_output_history(ctx)
+    if ctx.shard % 4 == 2:
+        check_type_names_across_submissions(ctx)
     if ctx.shard % 4 in (2, 3):
         # the instructor cleared the sandbox's history of executions (clear_context / clear_sandbox keep the numbering going):
         # results obtained before AND after that are operands like any other
@@ -785,6 +832,8 @@ def run(ctx):
 def replay(ctx, case):
     if case.get('scenario') == 'output-history':
         return check_output_history(ctx)
+    if case.get('scenario') == 'type-names-across-submissions':
+        return check_type_names_across_submissions(ctx)
     h = Harness()
     if 'cases' in case:
         return
